@@ -29,6 +29,260 @@ def struct_of(expr):
     return None
 
 
+MUTATORS = {'pop', 'append', 'extend', 'insert', 'remove', 'clear', 'update', 'setdefault', 'sort', 'reverse', 'add', 'discard', 'popitem', '__setitem__', '__delitem__'}
+ALIASING = {'get', 'setdefault', 'values', 'items'}
+
+
+def _root_name(expr):
+    """Receiver root of a call/attribute/subscript chain: local Name, or self.<field>."""
+    x = expr
+    while True:
+        if isinstance(x, ast.Call):
+            x = x.func
+        elif isinstance(x, ast.Attribute):
+            if struct_of(x):
+                return x
+            x = x.value
+        elif isinstance(x, ast.Subscript):
+            x = x.value
+        else:
+            return x
+
+
+def _is_alias_expr(expr):
+    """self.F, self.F[k], self.F.get(k, ...), self.F.setdefault(...), self.F.values()/items(): the result shares storage with F."""
+    if struct_of(expr):
+        return struct_of(expr)
+    if isinstance(expr, ast.Subscript) and struct_of(expr.value):
+        return struct_of(expr.value)
+    if isinstance(expr, ast.Call) and isinstance(expr.func, ast.Attribute) and expr.func.attr in ALIASING and struct_of(expr.func.value):
+        return struct_of(expr.func.value)
+    return None
+
+
+def _val_exprs(val):
+    if isinstance(val, ast.AST):
+        yield val
+    elif isinstance(val, tuple):
+        for v in val:
+            for e in _val_exprs(v):
+                yield e
+
+
+def _comp_bound(x):
+    """Names bound by comprehensions enclosing x."""
+    out = set()
+    p = getattr(x, '_parent', None)
+    while p is not None and not isinstance(p, (ast.FunctionDef, ast.Lambda)):
+        if isinstance(p, (ast.ListComp, ast.SetComp, ast.DictComp, ast.GeneratorExp)):
+            for g in p.generators:
+                for y in ast.walk(g.target):
+                    if isinstance(y, ast.Name):
+                        out.add(y.id)
+        p = getattr(p, '_parent', None)
+    return out
+
+
+class Snap:
+    """Flow-sensitive (reaching-definition based) derivation of local values from reads of the policy structures."""
+
+    def __init__(self, fn, ms):
+        self.fn = fn
+        self.g = CFG(fn)
+        self.rd = ReachingDefs(self.g)
+        rd = self.rd
+        self.taint = {}      # def id -> set of self.F read nodes
+        self.alias = {}      # def id -> F   (the local shares storage with F)
+        self.field_of = {}
+        # mutation statements: X.<...>(args) on a local root: args flow into the defs of X reaching that node
+        muts = []
+        for n in self.g.nodes:
+            if n.kind == 'stmt' and isinstance(n.stmt, ast.Expr) and isinstance(n.stmt.value, ast.Call):
+                r = _root_name(n.stmt.value)
+                if isinstance(r, ast.Name) and r.id != 'self':
+                    args = [a for c in ast.walk(n.stmt.value) if isinstance(c, ast.Call) for a in list(c.args) + [k.value for k in c.keywords]]
+                    muts.append((n, r.id, args))
+        changed = True
+        rounds = 0
+        while changed and rounds < 30:
+            changed = False
+            rounds += 1
+            for i, (var, val, dn) in enumerate(rd.defs):
+                if dn is None:
+                    continue
+                o = set()
+                for e in _val_exprs(val):
+                    o |= self.origins(dn, e)
+                if i in self.alias:
+                    o = set()
+                if not o <= self.taint.get(i, set()):
+                    self.taint.setdefault(i, set()).update(o)
+                    changed = True
+                a = None
+                if isinstance(val, ast.AST):
+                    a = _is_alias_expr(val)
+                elif isinstance(val, tuple) and val and val[0] == 'iter' and isinstance(val[1], ast.Call) and isinstance(val[1].func, ast.Attribute) and val[1].func.attr == 'values':
+                    a = _is_alias_expr(val[1])
+                elif isinstance(val, tuple) and val and val[0] == 'unpack' and isinstance(val[1], tuple) and val[1][0] == 'iter' and val[2] == 1 \
+                        and isinstance(val[1][1], ast.Call) and isinstance(val[1][1].func, ast.Attribute) and val[1][1].func.attr == 'items':
+                    a = _is_alias_expr(val[1][1])
+                if a and self.alias.get(i) != a:
+                    self.alias[i] = a
+                    changed = True
+            for n, x, args in muts:
+                o = set()
+                for e in args:
+                    o |= self.origins(n, e)
+                if not o:
+                    continue
+                for d in (rd.IN.get(n.id) or {}).get(x, ()):
+                    if not o <= self.taint.get(d, set()):
+                        self.taint.setdefault(d, set()).update(o)
+                        changed = True
+        # writes
+        self.writes, self.calls = [], []
+        for n in self.g.nodes:
+            for e in expr_nodes(n):
+                for x in ast.walk(e):
+                    if isinstance(x, ast.Subscript) and isinstance(x.ctx, (ast.Store, ast.Del)):
+                        f = struct_of(x.value) or (isinstance(x.value, ast.Name) and self.alias_of(n, x.value.id))
+                        if f:
+                            self.writes.append((f, x, x.slice))
+                    if isinstance(x, ast.Call) and isinstance(x.func, ast.Attribute) and x.func.attr in MUTATORS:
+                        recv = x.func.value
+                        f = struct_of(recv) or (isinstance(recv, ast.Name) and self.alias_of(n, recv.id)) or _is_alias_expr(recv)
+                        if f:
+                            self.writes.append((f, x, x.args[0] if x.args and struct_of(recv) else None))
+                    if isinstance(x, ast.Call) and is_self_attr(x.func) and x.func.attr in ms:
+                        self.calls.append(x)
+                    if isinstance(x, ast.Assign) and any(struct_of(t) for t in x.targets):
+                        self.writes.append(([struct_of(t) for t in x.targets if struct_of(t)][0], x, None))
+
+    def alias_of(self, node, var):
+        fs = set(self.alias.get(d) for d in (self.rd.IN.get(node.id) or {}).get(var, ()))
+        fs.discard(None)
+        return sorted(fs)[0] if fs else None
+
+    def origins(self, node, expr):
+        out = set()
+        for x in ast.walk(expr):
+            if isinstance(x, ast.Attribute) and isinstance(x.ctx, ast.Load) and struct_of(x):
+                out.add(x)
+            elif isinstance(x, ast.Name) and isinstance(x.ctx, ast.Load) and x.id != 'self' and x.id not in _comp_bound(x):
+                for d in (self.rd.IN.get(node.id) or {}).get(x.id, ()):
+                    if d in self.alias:
+                        # a live view of the structure, not a copy: reading it here is a read of the structure here
+                        self.field_of[id(x)] = self.alias[d]
+                        out.add(x)
+                    else:
+                        out |= self.taint.get(d, set())
+        return out
+
+    def field(self, r):
+        return struct_of(r) or self.field_of.get(id(r))
+
+
+def snapshot_analysis(ms):
+    info = {}
+    for name, fn in ms.items():
+        sn = Snap(fn, ms)
+        info[name] = dict(snap=sn, writes=sn.writes, calls=sn.calls)
+    # transitive write summaries: method -> {F: set(param index or None)}  (None = key not a parameter)
+    summ = {name: {} for name in ms}
+    changed = True
+    while changed:
+        changed = False
+        for name, fn in ms.items():
+            ps = params(fn)
+            cur = summ[name]
+
+            def note(f, key):
+                nonlocal changed
+                idx = ps.index(key.id) if isinstance(key, ast.Name) and key.id in ps else None
+                if idx not in cur.setdefault(f, set()):
+                    cur[f].add(idx)
+                    changed = True
+            for f, n, key in info[name]['writes']:
+                note(f, key)
+            for c in info[name]['calls']:
+                for f, idxs in list(summ[c.func.attr].items()):
+                    for i in idxs:
+                        arg = c.args[i] if i is not None and i < len(c.args) else None
+                        note(f, arg)
+    return info, summ
+
+
+def check_snapshots(ctx, ms):
+    ctx.rule('C18.R6', 'no value derived from policy_store/policy_map/policy_cache outside a loop is used inside that loop when the loop body updates the same structure (a snapshot carried across iterations is stale: ownership moves between files as files are processed); exempt: a query keyed by the loop variable when every update in the loop is keyed by that variable')
+    info, summ = snapshot_analysis(ms)
+    n_loops = n_uses = 0
+    for name, fn in sorted(ms.items()):
+        inf = info[name]
+        for lp in walk_local(fn):
+            if not isinstance(lp, (ast.For, ast.While)):
+                continue
+            body_nodes = set()
+            for st in lp.body + lp.orelse:
+                for x in ast.walk(st):
+                    body_nodes.add(id(x))
+            inside = set(body_nodes)
+            for x in ast.walk(lp.iter if isinstance(lp, ast.For) else lp.test):
+                inside.add(id(x))
+            # structures written in the body: field -> list of key expressions (None = not keyed / unknown)
+            written = {}
+            for f, n, key in inf['writes']:
+                if id(n) in body_nodes:
+                    written.setdefault(f, []).append(key)
+            for c in inf['calls']:
+                if id(c) in body_nodes:
+                    for f, idxs in summ[c.func.attr].items():
+                        for i in idxs:
+                            written.setdefault(f, []).append(c.args[i] if i is not None and i < len(c.args) else None)
+            if not written:
+                continue
+            n_loops += 1
+            lv = lp.target.id if isinstance(lp, ast.For) and isinstance(lp.target, ast.Name) else None
+            distinct = isinstance(lp, ast.For) and ((isinstance(lp.iter, ast.Call) and ((isinstance(lp.iter.func, ast.Attribute) and lp.iter.func.attr == 'keys') or call_name(lp.iter) in ('set', 'sorted') ))
+                                                   or isinstance(lp.iter, (ast.Set, ast.BinOp)))
+            stale = {}
+            sn = inf['snap']
+            for st in lp.body + lp.orelse:
+                for x in ast.walk(st):
+                    if not (isinstance(x, ast.Name) and isinstance(x.ctx, ast.Load) and x.id != 'self') or x.id in _comp_bound(x):
+                        continue
+                    un = node_of_expr(sn.g, x)
+                    if un is None:
+                        continue
+                    for r in sn.origins(un, x):
+                        f = sn.field(r)
+                        if id(r) in inside or f not in written:
+                            continue
+                        if lv and distinct and x.id == lv and all(isinstance(k, ast.Name) and k.id == lv for k in written[f]):
+                            continue    # the loop's own variable over distinct elements, every update keyed by it: earlier iterations touched other keys
+                        n_uses += 1
+                        # per-key independence exemption
+                        par = getattr(x, '_parent', None)
+                        keyed_use = False
+                        if lv and distinct and all(isinstance(k, ast.Name) and k.id == lv for k in written[f]):
+                            if isinstance(par, ast.Compare) and len(par.ops) == 1 and isinstance(par.ops[0], (ast.In, ast.NotIn)) and par.comparators[0] is x and isinstance(par.left, ast.Name) and par.left.id == lv:
+                                keyed_use = True
+                            if isinstance(par, ast.Subscript) and par.value is x and isinstance(par.slice, ast.Name) and par.slice.id == lv:
+                                keyed_use = True
+                            if isinstance(par, ast.Attribute) and par.attr == 'get' and isinstance(getattr(par, '_parent', None), ast.Call) and par._parent.args and isinstance(par._parent.args[0], ast.Name) and par._parent.args[0].id == lv:
+                                keyed_use = True
+                        if keyed_use:
+                            continue
+                        stale.setdefault((x.id, f), (r.lineno, x.lineno))
+            site = '%s:%s PolicyDirectoryMonitor.%s' % (MONITOR, lp.lineno, name)
+            for (var, f), (rl, ul) in sorted(stale.items()):
+                ctx.fail('C18.R6', 'PolicyDirectoryMonitor.%s|stale %s of %s in loop' % (name, var, f), site,
+                         '%s is derived from self.%s at line %d, outside the loop at line %d whose body updates self.%s; it is used at line %d inside the loop: what earlier iterations changed (ownership moving to another file, a restored definition) is not seen' % (var, f, rl, lp.lineno, f, ul))
+            if not stale:
+                ctx.ok('C18.R6', site, 'loop updates %s; every value derived from them that is used in the body is computed inside the loop' % sorted(written))
+    ctx.count('loops_updating_policy_structures', n_loops, 4)
+    ctx.analysed['write_summaries'] = {k: {f: sorted('key=param%s' % i if i is not None else 'other' for i in v) for f, v in d.items()} for k, d in summ.items() if d}
+
+
 def run(ctx):
     src = ctx.src
     for rid, text in (
@@ -69,7 +323,8 @@ def run(ctx):
         # guarded on the path?
         for tt, lab in dominating_edges(g, node):
             p = cmp_parts(tt.stmt)
-            if p and isinstance(p[0], ast.Name) and p[0].id == key.id and is_self_attr(p[2], 'reserved_policies'):
+            if p and isinstance(p[0], ast.Name) and p[0].id == key.id and (is_self_attr(p[2], 'reserved_policies') or (
+                    isinstance(p[2], ast.Name) and rd.values(tt, p[2].id) and all(isinstance(v, ast.AST) and is_self_attr(v, 'reserved_policies') for v in rd.values(tt, p[2].id)))):
                 if (p[1] == 'In' and lab == 'F') or (p[1] == 'NotIn' and lab == 'T'):
                     if set(id(d[2]) for d in rd.reaching(tt, key.id)) == set(id(d[2]) for d in rd.reaching(node, key.id)):
                         return 'guarded'
@@ -91,7 +346,7 @@ def run(ctx):
         # self.policy_map / self.policy_cache keys
         if isinstance(it, ast.Call) and isinstance(it.func, ast.Attribute) and it.func.attr == 'keys' and struct_of(it.func.value) in ('policy_map', 'policy_cache'):
             return 'map-derived'
-        if isinstance(it, ast.ListComp) and len(it.generators) == 1:
+        if isinstance(it, (ast.ListComp, ast.SetComp, ast.GeneratorExp)) and len(it.generators) == 1:
             gen = it.generators[0]
             if isinstance(gen.iter, ast.Call) and isinstance(gen.iter.func, ast.Attribute) and gen.iter.func.attr == 'items' and struct_of(gen.iter.func.value) in ('policy_map', 'policy_cache') \
                     and isinstance(gen.target, ast.Tuple) and isinstance(it.elt, ast.Name) and isinstance(gen.target.elts[0], ast.Name) and it.elt.id == gen.target.elts[0].id:
@@ -111,7 +366,7 @@ def run(ctx):
             return next(iter(ks)) if len(ks) == 1 else 'unknown:%s' % sorted(ks)
         if isinstance(it, ast.BinOp) and isinstance(it.op, ast.Sub):
             return iter_class(method, node, it.left, depth + 1)     # a set difference is a subset of its left operand
-        if isinstance(it, ast.Call) and call_name(it) in ('set', 'sorted', 'list') and len(it.args) == 1:
+        if isinstance(it, ast.Call) and call_name(it) in ("set", "sorted", "list", "tuple", "frozenset") and len(it.args) == 1:
             return iter_class(method, node, it.args[0], depth + 1)
         return 'unknown:iter %s' % short(it)
 
@@ -133,6 +388,7 @@ def run(ctx):
                         res.append((cname, n.line, kc))
         return bool(res) and all(k in ('guarded', 'map-derived') for _, _, k in res), res
 
+    deferred = []
     for method, node, struct, kind, key, x in update_sites:
         site = '%s:%s PolicyDirectoryMonitor.%s' % (MONITOR, node.line, method)
         k = 'PolicyDirectoryMonitor.%s|%s %s' % (method, kind, struct)
@@ -143,12 +399,14 @@ def run(ctx):
         why = kc
         if kc.startswith('unknown:'):
             # the analysis cannot tell where this key comes from: that is not a verdict (exactness policy)
-            raise AnalysisError('unrecognised construct: provenance of the key used at %s:%s (%s %s) cannot be classified: %s' % (MONITOR, node.line, kind, struct, kc))
+            deferred.append('unrecognised construct: provenance of the key used at %s:%s (%s %s) cannot be classified: %s' % (MONITOR, node.line, kind, struct, kc))
+            continue
         if kc.startswith('param:'):
             okc, res = callers_ok(method, kc[6:])
             why = 'parameter %s; callers: %s' % (kc[6:], res)
             if not okc and any(str(k).startswith('unknown') for _, _, k in res):
-                raise AnalysisError('unrecognised construct: provenance of the key passed to %s cannot be classified: %s' % (method, res))
+                deferred.append('unrecognised construct: provenance of the key passed to %s cannot be classified: %s' % (method, res))
+                continue
             kc = 'map-derived' if okc else 'unguarded'
         if struct == 'policy_store':
             ctx.check(kc in ('guarded', 'map-derived'), 'C18.R1', k, site, 'key is %s' % why,
@@ -178,6 +436,8 @@ def run(ctx):
     stores_r = [mname for mname, fn in ms.items() for n in walk_local(fn) if is_self_attr(n, 'reserved_policies') and isinstance(n.ctx, ast.Store)]
     ctx.check(okr and stores_r == ['__init__'], 'C18.R1', 'PolicyDirectoryMonitor.__init__|reserved-list', '%s:%s' % (MONITOR, init.lineno), "reserved_policies = ['default', 'public'], assigned once",
               "the reserved list is not exactly ['default', 'public'] / is reassigned")
+
+    check_snapshots(ctx, ms)
 
     # ---------------- R4 pairing
     scan = ms['scan_policies']
@@ -367,3 +627,10 @@ def run(ctx):
     ctx.not_decided += ['the shadow/restore semantics over arbitrary sequences of file events (a runtime state machine; model checking would be the fitting technique)',
                         'mtime granularity / files changing during a scan']
     ctx.assumptions += ['json.loads returns arbitrary JSON shapes; JSON object keys are strings', 'multiprocessing DictProxy behaves like a dict for get/pop/keys/item assignment']
+    if deferred:
+        if ctx.findings:
+            # definite violations stand on their own; the unclassifiable construct is reported with them
+            for d in deferred:
+                ctx.note('analysis incomplete: ' + d)
+        else:
+            raise AnalysisError(deferred[0])
